@@ -37,6 +37,7 @@ def _refactor(p):
 
 
 REGISTRY = {
+    "C09": _mod("p_panic"),
     "C20": _mod("p_front"),
     "C08": _mod("p_det"),
     "C05": _refactor("C05"),
